@@ -146,7 +146,9 @@ pub fn probe(r: &mut Runner, _step: &Step) {
         let gtfee = rl.unsigned_abs() > eng.liq_fee;
         let quote_branch = eng.partial != 0 && qp > pos.notional;
         let liquidator = ["liquidator", "stranger", "keeper"][(r.steps_done + v) % 3].to_string();
-        let topup = r.w.cfg.trader_balance.saturating_mul(40);
+        // enough for any shortfall of this liquidation: the bad debt plus the penalty, twice over
+        let shortfall_bound = ((-e_spot).max(0) as u128).saturating_add(mul_div(qw, eng.liq_fee, d).unwrap_or(0)).saturating_add(vault);
+        let topup = r.w.cfg.trader_balance.saturating_mul(40).max(shortfall_bound.saturating_mul(2));
         let nv = r.w.addrs.vamms.len();
         let ifund = r.w.addrs.insurance_fund.clone();
         let tt = t.clone();
@@ -189,7 +191,7 @@ pub fn probe(r: &mut Runner, _step: &Step) {
                 if ec == "transfer" && zero_withdrawal {
                     format!("{},{},bad_debt_equals_prepaid", ec, path)
                 } else if ec == "transfer" {
-                    format!("{},{},{}", ec, path, if fee_zero { "liquidator_fee_rounds_to_zero" } else if vault_short { "vault_short" } else { "vault_ok" })
+                    format!("{},{},{}", ec, path, if vault_short { "vault_short" } else if fee_zero { "liquidator_fee_rounds_to_zero" } else { "vault_ok" })
                 } else if ec == "panic" {
                     format!("{},{},{}", ec, path, if oracle_notional_zero { "dust_notional_zero" } else { "other" })
                 } else {
